@@ -317,7 +317,7 @@ const TEMPLATES: [&str; 13] = [
 ];
 
 pub fn n_items(w: &Work, ctx: &Ctx) -> usize {
-    let seeded = if ctx.quick() { 600 } else { 10000 };
+    let seeded = if ctx.quick() { 600 } else { 60000 };
     w.corpus.len() * if ctx.quick() { 2 } else { 10 } + TEMPLATES.len() + seeded
 }
 
